@@ -148,10 +148,39 @@ fn c10_jobs(thorough: bool) -> Vec<Job> {
                     bond_amts: bond,
                     unbond_amts: unbond,
                     hmax: H0 + blocks - 1,
+                    start_ns: 0,
+                    advance_ns: vec![],
                     adversarial: adv,
                 },
             },
             depth,
+        )
+    };
+    // time-based unbonding observed with sub-second resolution: blocks at T0+0.7 s, steps of 9.5 s and
+    // 0.5 s, period 10 s. A claim created at x matures at exactly x+10 s; the instants x+9.5 s (which lies
+    // after floor_to_second(x)+10 s when x has the fraction .7) and x+10 s separate exact from truncated release.
+    let subsec = |cw20: bool, tpw: u128, mb: u128| {
+        Job::S10(
+            StakeModel {
+                cfg: Cfg {
+                    name: format!(
+                        "C10/{}/tokens_per_weight {tpw}/min_bond {mb}/unbonding Time(10s)/funds [2, 1, 0]/4 blocks/sub-second clock: start +0.7 s, steps 9.5 s and 0.5 s",
+                        if cw20 { "cw20" } else { "native" }
+                    ),
+                    cw20,
+                    tpw,
+                    min_bond: mb,
+                    period: Period::Time(10),
+                    funds: [2, 1, 0],
+                    bond_amts: vec![1, 2],
+                    unbond_amts: vec![1, 2],
+                    hmax: H0 + 3,
+                    start_ns: 700_000_000,
+                    advance_ns: vec![9_500_000_000, 500_000_000],
+                    adversarial: false,
+                },
+            },
+            None,
         )
     };
     let hp = Period::Height(2);
@@ -177,6 +206,10 @@ fn c10_jobs(thorough: bool) -> Vec<Job> {
         out.push(mk(true, 1, 1, hp, [3, 1, 1], vec![1, 2, 3], vec![0, 1, 2, 3], 4, true, "closed", None));
         out.push(mk(true, 3, 2, tp, [4, 1, 0], vec![1, 2, 3], vec![0, 1, 3], 4, true, "closed", None));
         out.push(mk(false, 3, 5, hp, [6, 1, 0], vec![2, 3, 5], vec![0, 1, 3], 4, true, "closed", None));
+    }
+    out.push(subsec(false, 1, 1));
+    if thorough {
+        out.push(subsec(true, 2, 1));
     }
     // boundary stakes: quotients around 2^64 and amounts around 2^128
     let p64: u128 = 1 << 64;
@@ -220,7 +253,8 @@ fn c10_jobs(thorough: bool) -> Vec<Job> {
 
 fn c14_jobs(thorough: bool) -> Vec<Job> {
     let mut out = vec![];
-    let g = |name: &str, admin: Option<u8>, initial: Vec<(u8, u64)>, n: u8, weights: Vec<u64>, removes: Vec<Vec<u8>>, full: Vec<u8>, n_hooks: u8, blocks: u64| {
+    let hk = |n: usize| c14::HOOKS[..n].to_vec();
+    let g = |name: &str, admin: Option<u8>, initial: Vec<(u8, u64)>, n: u8, weights: Vec<u64>, removes: Vec<Vec<u8>>, full: Vec<u8>, hooks: Vec<&'static str>, blocks: u64| {
         Job::G14(
             c14::GroupAdmin {
                 cfg: c14::GroupCfg {
@@ -230,7 +264,7 @@ fn c14_jobs(thorough: bool) -> Vec<Job> {
                     add_lists: c09::add_lists(n, 2, &weights),
                     remove_lists: removes,
                     full_callers: full,
-                    n_hooks,
+                    hooks,
                     hmax: H0 + blocks - 1,
                 },
             },
@@ -246,20 +280,23 @@ fn c14_jobs(thorough: bool) -> Vec<Job> {
         r
     };
     if thorough {
-        out.push(g("C14/group/admin AD/init[]/members{A,B,C}/weights{0,1,2}/3 hooks/2 blocks", Some(0), vec![], 3, vec![0, 1, 2], rem3(), vec![0, 1, 2], 3, 2));
-        out.push(g("C14/group/admin AD/init[A:1,B:2]/members{A,B,C}/weights{0,1,2}/2 hooks/3 blocks", Some(0), vec![(0, 1), (1, 2)], 3, vec![0, 1, 2], rem3(), vec![0, 1], 2, 3));
-        out.push(g("C14/group/no admin/init[A:1,B:2]/members{A,B}/weights{0,1,2}/3 hooks/2 blocks", None, vec![(0, 1), (1, 2)], 2, vec![0, 1, 2], rem2(), vec![0, 1, 2], 3, 2));
+        out.push(g("C14/group/admin AD/init[]/members{A,B,C}/weights{0,1,2}/3 hooks/2 blocks", Some(0), vec![], 3, vec![0, 1, 2], rem3(), vec![0, 1, 2], hk(3), 2));
+        out.push(g("C14/group/admin AD/init[A:1,B:2]/members{A,B,C}/weights{0,1,2}/2 hooks/3 blocks", Some(0), vec![(0, 1), (1, 2)], 3, vec![0, 1, 2], rem3(), vec![0, 1], hk(2), 3));
+        out.push(g("C14/group/no admin/init[A:1,B:2]/members{A,B}/weights{0,1,2}/3 hooks/2 blocks", None, vec![(0, 1), (1, 2)], 2, vec![0, 1, 2], rem2(), vec![0, 1, 2], hk(3), 2));
     }
     // (the quick configurations are part of the thorough tier too)
-    out.push(g("C14/group/admin AD/init[]/members{A,B,C}/weights{0,1,2}/2 hooks/2 blocks", Some(0), vec![], 3, vec![0, 1, 2], rem3(), vec![0, 1], 2, 2));
-    out.push(g("C14/group/admin AD/init[A:1,B:2]/members{A,B}/weights{0,1,2}/2 hooks/2 blocks", Some(0), vec![(0, 1), (1, 2)], 2, vec![0, 1, 2], rem2(), vec![0, 1, 2], 2, 2));
-    out.push(g("C14/group/no admin/init[A:1,B:2]/members{A,B}/weights{0,1,2}/2 hooks/2 blocks", None, vec![(0, 1), (1, 2)], 2, vec![0, 1, 2], rem2(), vec![0, 1, 2], 2, 2));
-    let s = |admin: Option<u8>, tpw: u128, mb: u128, funds: Vec<u128>, amounts: Vec<u128>, n_hooks: u8, blocks: u64| {
+    out.push(g("C14/group/admin AD/init[]/members{A,B,C}/weights{0,1,2}/2 hooks/2 blocks", Some(0), vec![], 3, vec![0, 1, 2], rem3(), vec![0, 1], hk(2), 2));
+    out.push(g("C14/group/admin AD/init[A:1,B:2]/members{A,B}/weights{0,1,2}/2 hooks/2 blocks", Some(0), vec![(0, 1), (1, 2)], 2, vec![0, 1, 2], rem2(), vec![0, 1, 2], hk(2), 2));
+    out.push(g("C14/group/no admin/init[A:1,B:2]/members{A,B}/weights{0,1,2}/2 hooks/2 blocks", None, vec![(0, 1), (1, 2)], 2, vec![0, 1, 2], rem2(), vec![0, 1, 2], hk(2), 2));
+    // the admins themselves are offered as hook addresses: a governing contract that also listens
+    out.push(g("C14/group/admin AD/init[A:1]/members{A,B}/weights{0,1,2}/hooks{H1,AD,AD2}/2 blocks", Some(0), vec![(0, 1)], 2, vec![0, 1, 2], rem2(), vec![0, 1], vec!["H1", "AD", "AD2"], 2));
+    let s = |admin: Option<u8>, tpw: u128, mb: u128, funds: Vec<u128>, amounts: Vec<u128>, hooks: Vec<&'static str>, blocks: u64| {
+        let hooks_name = if hooks.iter().all(|h| c14::HOOKS.contains(h)) { format!("{} hooks", hooks.len()) } else { format!("hooks{:?}", hooks) };
         Job::S14(
             c14::StakeAdmin {
                 cfg: c14::StakeCfg {
                     name: format!(
-                        "C14/stake/{}/tokens_per_weight {tpw}/min_bond {mb}/funds {:?}/{n_hooks} hooks/{blocks} blocks",
+                        "C14/stake/{}/tokens_per_weight {tpw}/min_bond {mb}/funds {:?}/{hooks_name}/{blocks} blocks",
                         if admin.is_some() { "admin AD" } else { "no admin" },
                         funds
                     ),
@@ -268,7 +305,7 @@ fn c14_jobs(thorough: bool) -> Vec<Job> {
                     min_bond: mb,
                     funds,
                     amounts,
-                    n_hooks,
+                    hooks,
                     hmax: H0 + blocks - 1,
                 },
             },
@@ -276,14 +313,16 @@ fn c14_jobs(thorough: bool) -> Vec<Job> {
         )
     };
     if thorough {
-        out.push(s(Some(0), 1, 1, vec![4, 3], vec![1, 2, 3], 3, 2));
-        out.push(s(Some(0), 2, 2, vec![4, 3], vec![1, 2, 3], 3, 2));
-        out.push(s(Some(0), 3, 2, vec![5, 3], vec![1, 2, 3], 2, 3));
+        out.push(s(Some(0), 1, 1, vec![4, 3], vec![1, 2, 3], hk(3), 2));
+        out.push(s(Some(0), 2, 2, vec![4, 3], vec![1, 2, 3], hk(3), 2));
+        out.push(s(Some(0), 3, 2, vec![5, 3], vec![1, 2, 3], hk(2), 3));
     }
-    out.push(s(Some(0), 1, 1, vec![3, 2], vec![1, 2, 3], 2, 2));
-    out.push(s(Some(0), 2, 2, vec![4, 2], vec![1, 2, 3], 2, 2));
-    out.push(s(Some(0), 2, 3, vec![4, 2], vec![1, 2], 2, 2));
-    out.push(s(None, 2, 1, vec![3, 2], vec![1, 2], 2, 1));
+    out.push(s(Some(0), 1, 1, vec![3, 2], vec![1, 2, 3], hk(2), 2));
+    out.push(s(Some(0), 2, 2, vec![4, 2], vec![1, 2, 3], hk(2), 2));
+    out.push(s(Some(0), 2, 3, vec![4, 2], vec![1, 2], hk(2), 2));
+    out.push(s(None, 2, 1, vec![3, 2], vec![1, 2], hk(2), 1));
+    // tokens_per_weight above min_bond: members with weight 0 come and go; a staker is also a hook
+    out.push(s(Some(0), 3, 1, vec![3, 2], vec![1, 2], vec!["H1", "U1"], 2));
     out
 }
 
@@ -304,8 +343,8 @@ fn describe(prop: &str) -> (&'static str, &'static str, &'static str) {
             "the clock is capped (blocks per configuration in its name) and weights are finite, so every configuration runs to a FIXPOINT: all histories over the alphabet within the block bound, any number of updates per block",
         ),
         "C10" => (
-            "Bond with funds {1,2,3 of the stake denom, another denom, two denoms, none}; cw20 Send{Bond} through the configured real cw20-base token and through a foreign one; Receive sent directly by a user (for himself / for another user); Unbond {0,1,2,3, stake+1}; Claim; a donation to the contract; AdvanceBlock (+1 block, +5 s). Configurations: native / cw20 stake token, tokens_per_weight {1,2,3}, min_bond {0,1,2,5}, unbonding Height(2) / Time(10 s), two stakers with finite funds and a donor. Edge configurations: bonds of 2^64*tpw-1, 2^64*tpw, 2^64*tpw+3, 2^128-1, 2^128-2.",
-            "reference ledger {stake[u], claims[u]=[(amount, unbond block/time + period)]} stepped on accepted calls. State: real holdings of the contract (kernel bank / real cw20 balance) >= sum stakes + sum unreleased claims, == when nobody donated; Staked and Claims queries == ledger; Member{u} == Some(floor(stake/tokens_per_weight)) compared in 128 bits iff stake >= max(min_bond,1) else None; TotalWeight == sum of listed weights; listing == Member queries. Transition: accepted bond with anything but exactly the configured token, foreign-token Send{Bond} or user-sent Receive accepted => violation; Unbond above the stake accepted => violation; an accepted Claim moves exactly the sum of the caller's claims whose release point is reached (computed by the reference) from the contract to the caller and removes them, nobody else's balance moves; every other accepted call moves exactly its own amount; a refused call and a block advance change nothing.",
+            "Bond with funds {1,2,3 of the stake denom, another denom, two denoms, none}; cw20 Send{Bond} through the configured real cw20-base token and through a foreign one; Receive sent directly by a user (for himself / for another user); Unbond {0,1,2,3, stake+1}; Claim; a donation to the contract; AdvanceBlock (+1 block, +5 s; in the sub-second configuration blocks start at T0+0.7 s and advance by 9.5 s or 0.5 s). Configurations: native / cw20 stake token, tokens_per_weight {1,2,3}, min_bond {0,1,2,5}, unbonding Height(2) / Time(10 s), two stakers with finite funds and a donor. Edge configurations: bonds of 2^64*tpw-1, 2^64*tpw, 2^64*tpw+3, 2^128-1, 2^128-2.",
+            "reference ledger {stake[u], claims[u]=[(amount, unbond block height / exact block time in nanoseconds + period)]} stepped on accepted calls. State: real holdings of the contract (kernel bank / real cw20 balance) >= sum stakes + sum unreleased claims, == when nobody donated; Staked and Claims queries == ledger; Member{u} == Some(floor(stake/tokens_per_weight)) compared in 128 bits iff stake >= max(min_bond,1) else None; TotalWeight == sum of listed weights; listing == Member queries. Transition: accepted bond with anything but exactly the configured token, foreign-token Send{Bond} or user-sent Receive accepted => violation; Unbond above the stake accepted => violation; an accepted Claim moves exactly the sum of the caller's claims whose release point is reached (computed by the reference) from the contract to the caller and removes them, nobody else's balance moves; every other accepted call moves exactly its own amount; a refused call and a block advance change nothing.",
             "closed configurations (finite funds, capped clock, zero-unbond offered once per pending zero claim) run to FIXPOINT; edge configurations to the stated depth",
         ),
         "C14" => (
